@@ -160,9 +160,12 @@ theorem ctxRound_base (d : Dec) (h : d.WF) : ctxRound baseCtx d = (d, {}) := by
   have e2 : ¬ d.exp < -100000 := by omega
   have e3 : ¬ d.exp + (ndigits d.coeff : Int) - 1 > 100000 := by omega
   have e4 : ¬ d.exp + (ndigits d.coeff : Int) - 1 < -100000 := by omega
-  simp only [ctxRound, roundX, baseCtx, setExponent, checkXs, sumInts, MaxExponent, MinExponent, seFinish, e1, e2, e3, e4,
-    if_false, Int.add_zero]
-  simp
+  by_cases hf : d.form = .finite
+  · rw [ctxRound_finite _ _ hf]
+    simp only [ctxRoundFin, roundXFin, baseCtx, setExponent, checkXs, sumInts, MaxExponent, MinExponent, seFinish,
+      e1, e2, e3, e4, if_false, Int.add_zero]
+    simp
+  · exact ctxRound_nonfinite _ _ hf
 
 /-- the value `SetString` stores for the text of `d` -/
 def stored (d : Dec) : Dec :=
